@@ -1675,6 +1675,8 @@ class PureProfile(BaseProfile):
             return ("RustLite.pushBack", False)
         if name == "retain":
             return ("RustLite.retain", False)
+        if name == "clear" and (recv is None or kind in ("map", "deque")):
+            return ("RustLite.clearAll", False)
         if name == "insert" and (recv is None or kind == "map"):
             return ("RustLite.mapInsert", False)
         if name == "fetch_add":
@@ -1921,7 +1923,7 @@ def regenerate():
             problems.append(f"{rel}: " + (str(e) if isinstance(e, Untranslatable) else f"translator error {e!r}"))
             text = "-- translation failed: " + str(e).replace("\n", " ") + "\n"
         h2 = hdr.replace("import Cachelito.RustLite\n", "import Cachelito.RustLite\nimport Cachelito.Generated.PureUtils\nimport Cachelito.Generated.PureEntry\nimport Cachelito.Generated.PureStats\n") if mod in ("Global", "Async", "Thread") else hdr
-        write_if_changed(os.path.join(GEN_DIR, f"Pure{mod}.lean"), h2 + f"namespace {mod}\nvariable {{K V F : Type}} [DecidableEq K]\n\n" + text + f"\nend {mod}\nend Cachelito.Generated\n")
+        write_if_changed(os.path.join(GEN_DIR, f"Pure{mod}.lean"), h2 + f"namespace {mod}\nvariable {{K V F E T : Type}} [DecidableEq K]\n\n" + text + f"\nend {mod}\nend Cachelito.Generated\n")
     info["problems"] = problems
     return info
 
@@ -1961,6 +1963,8 @@ def lean_type(rust, pname):
         return "V", "val"
     if base == "Option<R>":
         return "Option V", "optval"
+    if base == "Result<T,E>":
+        return "Except E T", "result"
     if base == "Self":
         return None, "self"
     raise Untranslatable(f"parameter / return type `{rust}`")
@@ -1977,10 +1981,10 @@ UTIL_FILES = [
     ("Policy", "cachelito-core/src/eviction_policy.rs", None, {}, ["is_valid", "from"]),
     ("Global", "cachelito-core/src/global_cache.rs", "RustLite.GlobalCache K V F",
      {"self.map": "map", "self.order": "deque", "self.frequency_weight": "optf64", "self.stats": "stats"},
-     ["handle_entry_limit_eviction", "insert", "increment_frequency", "get"]),
+     ["handle_entry_limit_eviction", "insert", "increment_frequency", "get", "clear", "insert_result"]),
     ("Thread", "cachelito-core/src/thread_local_cache.rs", "RustLite.ThreadCache K V F",
      {"self.cache": "map", "self.order": "deque", "self.frequency_weight": "optf64", "self.stats": "stats"},
-     ["move_to_end", "increment_frequency", "remove_key", "remove_key_with_order", "handle_entry_limit_eviction", "insert", "get"]),
+     ["move_to_end", "increment_frequency", "remove_key", "remove_key_with_order", "handle_entry_limit_eviction", "insert", "get", "insert_result"]),
     ("Async", "cachelito-core/src/async_global_cache.rs", "RustLite.AsyncCache K V F",
      {"self.cache": "map", "self.order": "deque", "self.frequency_weight": "optf64", "self.stats": "stats"},
      ["find_min_frequency_key", "find_arc_eviction_key", "find_tlru_eviction_key", "is_already_key_inserted",
@@ -2333,7 +2337,10 @@ def translate_utils(module, skip=()):
             for (pn, pt) in f["params"]:
                 if pn == "self":
                     kinds["self"] = "self"
-                    sig.append(f"(self : {self_ty})")
+                    sty = self_ty
+                    if hdr is not None and "Result<T,E>" in hdr[1].replace(" ", ""):
+                        sty = self_ty.replace(" K V F", " K (Except E T) F")
+                    sig.append(f"(self : {sty})")
                     continue
                 lt, kind = lean_type(pt, pn)
                 kinds[pn] = kind
